@@ -7,12 +7,12 @@ EXPLANATION = ("U1 panic-source cone (MIR call graph) from the eight public cons
                "driver loop (what lies behind them is driven by server data and decided by C11): every diverging call, Assert terminator "
                "and may-panic external call must be absent or reviewed in rules/triage/C18.tsv; U2 all paths of the TCP constructor: the "
                "address connected to is `<host>:<port>` with host = the URL's host, or localhost when it is absent or empty, and port = "
-               "the URL's port, else 389 for ldap and 636 for ldaps; any other scheme returns UnknownScheme; ldapi goes to the Unix "
+               "the URL's port, else 389 for ldap and 636 for ldaps; any other scheme returns UnknownScheme; the mode of every connection handed back, read off the path's events, is the scheme's: ldaps = TLS from the first byte whatever the StartTLS setting says, ldap = StartTLS exactly when the setting is requested, cleartext otherwise (the setting as the path found it: a getter applied after builder calls is resolved by the meaning of the builder interface, not by where the test sits); ldapi goes to the Unix "
                "constructor; U3 the Unix constructor: empty path -> EmptyUnixPath, ':' in the path -> PortInUnixPath, the path is "
                "percent-decoded before connecting, a pre-opened Unix stream is accepted and a TCP/invalid one is MismatchedStreamType; the "
                "TCP constructor accepts a pre-opened TCP stream and rejects the others; U4 when a connection timeout is set the future of "
                "the whole TCP constructor (which contains StartTLS and the handshake) is wrapped in tokio::time::timeout with that duration "
-               "and expiry is propagated as an error; U6 every builder method of the settings struct, evaluated, returns `self` with exactly its own field replaced (a method that resets another field drops settings made before it in the chain). Not decided: unreachable endpoints (OS behaviour); the url crate's parser.")
+               "and expiry is propagated as an error; U6 every builder method of the settings struct, evaluated on literals in every reachable state of the struct (the states enumerated from the constructors by the builder methods themselves), leaves every other setting reading as before - StartTLS through its getter, the verification setting in the default connector - and every opaque field (timeout, connector, stream) `self`'s own; how the struct keeps its settings (a bool each, bits of a flags byte) is not read (a method that resets another setting drops what was requested before it in the chain). Not decided: unreachable endpoints (OS behaviour); the url crate's parser.")
 TRUSTED = ['url crate parsing', 'OS connect behaviour', 'rules/triage/C18.tsv']
 UNDECIDED = ['unreachable endpoints (OS)', 'exotic URL strings inside the url crate']
 ASSUMPTIONS = ['code behind the operation issue point / driver loop is driven by server data, not by URL or settings (C11)']
